@@ -64,6 +64,8 @@ type installedFn struct {
 	asErr  *ssa.Function
 	rtu    bool
 	pos    string
+	// every library function either field may hold when the constructor returns
+	mayParse, mayAsErr []*ssa.Function
 }
 
 // installedFns evaluates every constructor of Client / SerialClient and reads the two function
@@ -108,6 +110,18 @@ func installedFns(c *Ctx) []installedFn {
 				if ef, ok := fr.loadPath(obj, pathStr("", ci.asErr), ci.st.Field(ci.asErr).Type(), rs.instr).(AFunc); ok {
 					in.asErr = ef.fn
 				}
+				collect := func(field int) []*ssa.Function {
+					var fs []*ssa.Function
+					if vs, ok := fr.mayLoad(obj, pathStr("", field), rs.instr); ok {
+						for _, v := range vs {
+							if af, ok := v.(AFunc); ok {
+								fs = append(fs, af.fn)
+							}
+						}
+					}
+					return fs
+				}
+				in.mayParse, in.mayAsErr = collect(ci.parse), collect(ci.asErr)
 				out = append(out, in)
 			}
 		}
@@ -123,6 +137,19 @@ func installedRecognisers(c *Ctx, r *Report, rule string, crc *ssa.Function, ski
 		done[k] = true
 	}
 	for _, in := range installedFns(c) {
+		// whatever the caller configures, a constructor must not be able to leave library functions
+		// of both framings installed side by side (an RTU parser next to the TCP recogniser)
+		fam := map[string]string{}
+		for _, f := range append(append([]*ssa.Function{}, in.mayParse...), in.mayAsErr...) {
+			if f.Pkg != nil && strings.HasSuffix(f.Pkg.Pkg.Path(), "/packet") {
+				fam[framingOf(f)] = f.Name()
+			}
+		}
+		if len(fam) > 1 {
+			r.instance(rule, 1)
+			r.fail(rule, fnID(in.ctor), fmt.Sprintf("this constructor can return a client holding library functions of both framings (%s and %s): which pair is installed depends on the configuration", fam["tcp"], fam["rtu"]), in.pos, "", "framing-mix")
+			continue
+		}
 		if in.parse == nil {
 			continue // user-supplied functions: outside the property
 		}
@@ -136,4 +163,48 @@ func installedRecognisers(c *Ctx, r *Report, rule string, crc *ssa.Function, ski
 			c02RecogniserCRC(c, r, rule, in.asErr, crcIf(crc, in.rtu), !in.rtu, false)
 		}
 	}
+}
+
+// framingOf classifies a packet-package function by what it (transitively, statically) builds:
+// "tcp" if it allocates a struct carrying a transaction id (MBAP framing), else "rtu".
+func framingOf(fn *ssa.Function) string {
+	seen := map[*ssa.Function]bool{}
+	var walk func(f *ssa.Function, depth int) bool
+	walk = func(f *ssa.Function, depth int) bool {
+		if f == nil || seen[f] || f.Blocks == nil || depth > 4 {
+			return false
+		}
+		seen[f] = true
+		for _, b := range f.Blocks {
+			for _, in := range b.Instrs {
+				if al, ok := in.(*ssa.Alloc); ok {
+					if st, ok := deref(al.Type()).Underlying().(*types.Struct); ok && hasTransactionID(st, 0) {
+						return true
+					}
+				}
+				if call, ok := in.(ssa.CallInstruction); ok {
+					if walk(call.Common().StaticCallee(), depth+1) {
+						return true
+					}
+				}
+			}
+		}
+		return false
+	}
+	if walk(fn, 0) {
+		return "tcp"
+	}
+	return "rtu"
+}
+
+func hasTransactionID(st *types.Struct, depth int) bool {
+	for i := 0; i < st.NumFields(); i++ {
+		if st.Field(i).Name() == "TransactionID" {
+			return true
+		}
+		if s2, ok := st.Field(i).Type().Underlying().(*types.Struct); ok && depth < 2 && hasTransactionID(s2, depth+1) {
+			return true
+		}
+	}
+	return false
 }
